@@ -36,9 +36,9 @@ BUDGET = {"quick": 200, "thorough": 1800}
 
 def cases(tier, seed):
     out = [{"sub": "bigresample", "i": i} for i in range(1 if tier == "quick" else 3)]
-    out += [{"sub": "group", "i": i} for i in range(128 if tier == "quick" else 4000)]
-    out += [{"sub": "hist", "i": i} for i in range(256 if tier == "quick" else 16000)]
-    out += [{"sub": "hist_history", "i": i} for i in range(128 if tier == "quick" else 8000)]
+    out += [{"sub": "group", "i": i} for i in range(128 if tier == "quick" else 30000)]
+    out += [{"sub": "hist", "i": i} for i in range(256 if tier == "quick" else 100000)]
+    out += [{"sub": "hist_history", "i": i} for i in range(128 if tier == "quick" else 60000)]
     return out
 
 
